@@ -109,7 +109,7 @@ fn spec_compress(h: &mut [u32; 5], x: &[u32; 16]) {
     h[4] = h[0].wrapping_add(b).wrapping_add(c2);
     h[0] = t;
 }
-// @attempt (not run: goto-instrument is OOM-killed at 24 GB on the unrolled body, as for the BLAKE2 compression functions) props=C01 kind=full tier=thorough timeout=1200
+// @attempt (not run: under memory pressure goto-instrument is OOM-killed at 24 GB on the unrolled body; with the machine free CBMC gives no verdict within 20 min) props=C01 kind=full tier=thorough timeout=1200
 #[kani::proof]
 #[kani::unwind(82)]
 fn ripemd160_compress_matches_paper() {
